@@ -76,7 +76,7 @@ func buildWorld(c *xs.Ctx) *world {
 	do("s0", ops.Op{K: "T", A: u1, B: u2, V: 3})
 	do("f6", ops.Op{K: "Call", S: "fuse", A: u1, B: u6, V: 50})
 	do("t6", ops.Op{K: "T", A: u1, B: u6, V: 2})
-	do("z0", ops.Op{K: "Tx", A: u1, B: u2, T: 0, V: 0}) // a zero-amount send (nothing to credit when it is received)
+	do("z0", ops.Op{K: "Tx", A: u1, B: u2, T: 2, V: 0}) // a data-only send: amount zero, zero token standard (nothing to credit when it is received)
 	do("", M)                                           // h2
 	do("r0", ops.Op{K: "R", A: u2})
 	do("rz0", ops.Op{K: "R", A: u2})
